@@ -18,7 +18,8 @@ CONSTANTS N,          \* contexts 1..N
           MaxOps,     \* reads/writes per attempt
           MaxChain,   \* longest relay chain
           Aborts,     \* TRUE: attempts may abort
-          SendLast,   \* TRUE: after a TCP send an attempt performs no further read (the shape without a small repair is excluded)
+          SendLast,   \* TRUE: after a TCP send an attempt does nothing that can grow its clock (no read, no shared
+                      \* variable access): excludes the shape for which no small repair exists
           Record      \* TRUE: keep the program text (generator mode)
 
 VARIABLES S, cur, k, total, nops, reads, wrote, val, wval, chq, tq, ctaken, ttaken, csent, tsent, wlog, ok,
@@ -27,7 +28,7 @@ vars == <<S, cur, k, total, nops, reads, wrote, val, wval, chq, tq, ctaken, ttak
           opl, commits, hist, emitted>>
 
 Ctx == 1..N
-Tok0 == <<0, 0, 0>>
+Tok0 == <<0, 0>>
 ShCell(x) == "sh." \o x
 LoCell(c, x) == "c" \o ToString(c) \o "." \o x
 Tokens(ch) == {ch[i] : i \in 1..Len(ch)}
@@ -48,8 +49,9 @@ Start(c) == /\ cur = 0 /\ total < MaxAtt /\ k[c] < MaxPer
             /\ UNCHANGED <<val, chq, tq, wlog, ok, commits, hist, emitted>>
 
 InAttempt == cur # 0 /\ nops < MaxOps
+(* after a TCP send nothing that can make the sink's clock grow: no read of any kind, no access to a shared variable *)
 MayRead == ~(SendLast /\ tsent # <<>>)
-NewTok == <<cur, k[cur], nops + 1>>
+NewTok == <<cur, k[cur]>>     \* all writes of an attempt are logged with one clock: the attempt is the token
 Chain(r) == (IF r = 0 THEN <<>> ELSE reads[r]) \o <<NewTok>>
 Relayable == {0} \cup {r \in 1..Len(reads) : reads[r] # <<>>}
 Op(o, r, i, rel) == IF Record THEN Append(opl, [o |-> o, r |-> r, i |-> i, rel |-> rel]) ELSE opl
@@ -62,7 +64,7 @@ ReadVar(cd) == /\ InAttempt /\ MayRead /\ cd \in CellsOf(cur)
                /\ S' = Var(S, cur, cd.cell) /\ reads' = Append(reads, CurVal(cd.cell)) /\ nops' = nops + 1
                /\ opl' = Op("r" \o cd.o, cd.r, 0, 0)
                /\ UNCHANGED <<wrote, wval, ctaken, ttaken, csent, tsent>> /\ Stay
-WriteVar(cd, r) == /\ InAttempt /\ cd \in CellsOf(cur) /\ r \in Relayable /\ Len(Chain(r)) <= MaxChain
+WriteVar(cd, r) == /\ InAttempt /\ cd \in CellsOf(cur) /\ r \in Relayable /\ (cd.o = "s" => MayRead) /\ Len(Chain(r)) <= MaxChain
                    /\ S' = Var(S, cur, cd.cell) /\ wval' = Put(wval, cd.cell, Chain(r))
                    /\ reads' = Append(reads, <<>>) /\ wrote' = wrote \cup {NewTok} /\ nops' = nops + 1
                    /\ opl' = Op("w" \o cd.o, cd.r, 0, r)
@@ -133,4 +135,10 @@ Next == \/ \E c \in Ctx : Start(c)
         \/ Emit
 
 Causal == ok
+
+(* channel topologies for the configuration files (a cfg cannot contain tuples) *)
+P0 == {}
+P12 == {<<1, 2>>}
+P12_23 == {<<1, 2>>, <<2, 3>>}
+P12_21 == {<<1, 2>>, <<2, 1>>}
 =============================================================================
